@@ -14,6 +14,7 @@ import os
 import tempfile
 
 _real_open = builtins.open
+_TMPNAME = __import__("re").compile(r"tmp\d{7}")
 
 
 class Plan:
@@ -33,7 +34,8 @@ class Plan:
     def hit(self, what, fd=None, data=None, path=None):
         i = self.n
         self.n += 1
-        self.log.append([what, len(data) if data is not None else None, os.path.basename(path) if path else None])
+        # (names of temporary files contain the pid: not part of the site's identity)
+        self.log.append([what, len(data) if data is not None else None, _TMPNAME.sub("tmp#", os.path.basename(path)) if path else None])
         if self.site != i or self.mode is None:
             return None
         self.fired = True
@@ -184,12 +186,19 @@ class OSProxy:
 class TmpProxy:
     def __init__(self):
         self.counter = 0
+        # where temporary files go when the caller names no directory: a directory on ANOTHER file system than the data
+        # (a tmpfs $TMPDIR is common), so that "write a temp file, then move it into place" is only atomic when the
+        # temp file was created next to its target.  Set per run by the engine; None = the system default.
+        self.other_fs_dir = None
 
     def __getattr__(self, n):
         return getattr(tempfile, n)
 
     def mkstemp(self, suffix=None, prefix=None, dir=None, text=False):
         PLAN.hit("mkstemp", path=dir)
+        if dir is None and self.other_fs_dir is not None:
+            os.makedirs(self.other_fs_dir, exist_ok=True)
+            dir = self.other_fs_dir
         while True:
             # deterministic names, but - like the real mkstemp - never an existing one (a crashed writer leaves its
             # temporary file behind, and pids repeat modulo 1000)
@@ -202,8 +211,47 @@ class TmpProxy:
             return fd, name
 
 
+class ShutilProxy:
+    """shutil as seen by the patched module: move / copy are call sites, and a move across file systems is what it is
+    for the real shutil - a copy that truncates and refills the destination in place, then an unlink."""
+
+    def __getattr__(self, n):
+        import shutil
+
+        return getattr(shutil, n)
+
+    def _copy(self, src, dst):
+        with _real_open(src, "rb") as f:
+            data = f.read()
+        fp = f_open(dst, "wb")  # site open-w: truncates the destination
+        try:
+            fp.write(data)  # site(s) write
+        finally:
+            fp.close()  # site close
+
+    def move(self, src, dst, *a, **kw):
+        PLAN.hit("move", path=os.fspath(dst))
+        try:
+            os.rename(src, dst)
+            return dst
+        except OSError as e:
+            if e.errno != _errno.EXDEV:
+                raise
+        self._copy(src, dst)
+        FS_OS.unlink(src)
+        return dst
+
+    def copyfile(self, src, dst, *a, **kw):
+        PLAN.hit("copy", path=os.fspath(dst))
+        self._copy(src, dst)
+        return dst
+
+    copy = copy2 = copyfile
+
+
 FS_OS = OSProxy()
 FS_TMP = TmpProxy()
+FS_SHUTIL = ShutilProxy()
 ERRNOS = (_errno.ENOSPC, _errno.EIO, _errno.EACCES, _errno.EMFILE, _errno.EROFS)
 
 
@@ -215,6 +263,9 @@ def install(module):
     if hasattr(module, "tempfile"):
         module.tempfile = FS_TMP
         done.append("tempfile")
+    if hasattr(module, "shutil"):
+        module.shutil = FS_SHUTIL
+        done.append("shutil")
     module.open = f_open
     done.append("open")
     return done
